@@ -1,0 +1,68 @@
+//go:build verif
+
+// Contracts for package bls, read by /verif's govc (comment-only; no declarations).
+// mathlib objects (*math.Zr, *math.G1, *math.G2, *math.Gt) are abstract: val(x) is their value in an uninterpreted
+// field / group; see /verif/engine libmodels_math.go for the assumed contracts of the library.
+
+package bls
+
+//@ spec macro curveOK() bool = c != nil && c.GenG1 != nil && c.GenG2 != nil && c.GroupOrder != nil && negG2 != nil
+
+//@ type TBLS
+//@   invariant [logger] this.Logger != nil
+//@   invariant [inited] this.init ==> this.shares != nil && this.commitments != nil && this.publicKeysOfParties != nil
+
+// ---- network-facing entry points (C10); classification (C04, C05) ------------------------------------------------------
+
+//@ func (*TBLS).ClassifyMsg
+//@   props C10 C04 C05
+//@   modifies nothing
+//@   ensures [share]   len(msgBytes) > 0 && msgBytes[0] == shareDistribution ==> result.2 == nil && !result.1 && result.0 == shareDistribution
+//@   ensures [commit]  len(msgBytes) > 0 && msgBytes[0] == commitPK ==> result.2 == nil && result.1 && result.0 == commitPK
+//@   ensures [reveal]  len(msgBytes) > 0 && msgBytes[0] == revealPK ==> result.2 == nil && result.1 && result.0 == revealPK
+//@   ensures [invalid] len(msgBytes) == 0 || msgBytes[0] == 0 || msgBytes[0] > revealPK ==> result.2 != nil
+//@
+//@ // tbls.init: the orchestrator registers the instance with the dispatcher only after Init (event assertion in
+//@ // threshold.runDKG$1 / prepareSigning)
+//@ func (*TBLS).OnMsg
+//@   props C10 C05
+//@   requires tbls.init && curveOK()
+//@
+//@ func (*Verifier).Init
+//@   props C10 C13 C09
+//@   requires curveOK()
+//@
+//@ // preconditions = the documented programming errors the function panics on (caller-side contract)
+//@ func (*Verifier).AggregateSignatures
+//@   props C10 C09
+//@   requires curveOK() && len(signers) >= 2 && len(signatures) == len(signers) && v.parties2EvalPoints != nil
+//@   requires [known]    forall i int :: { signers[i] } 0 <= i && i < len(signers) ==> signers[i] in v.parties2EvalPoints
+//@   requires [distinct] forall i int, j int :: 0 <= i && i < j && j < len(signers) ==> v.parties2EvalPoints[signers[i]] != v.parties2EvalPoints[signers[j]]
+//@   loop 0: invariant [parsed] len(sigs) == len(signatures) && 0 <= i && forall m int :: 0 <= m && m < i ==> sigs[m] != nil
+//@   loop 1: invariant [points] len(evalPoints) == len(signers) && (forall m int :: 0 <= m && m < len(sigs) ==> sigs[m] != nil) &&
+//@                              forall m int :: 0 <= m && m <= rangeindex ==> evalPoints[m] == v.parties2EvalPoints[signers[m]]
+//@
+//@ func (*Verifier).Verify
+//@   props C10 C09
+//@   requires curveOK() && v.tPK != nil
+
+// ---- Lagrange aggregation: safety level (C10); the algebraic refinement is in the C18 section -----------------------
+
+//@ func lagrangeCoefficient
+//@   props C10 C18
+//@   requires curveOK() && len(evaluationPoints) >= 2
+//@   requires [distinct] forall a int, b int :: 0 <= a && a < b && b < len(evaluationPoints) ==> evaluationPoints[a] != evaluationPoints[b]
+//@   modifies nothing
+//@   ensures  [non-nil] result != nil
+//@   loop 0: invariant [elems]    forall m int :: 0 <= m && m < len(prodElements) ==> prodElements[m] != nil
+//@   loop 0: invariant [nonempty] forall k int :: 0 <= k && k <= rangeindex && evaluationPoints[k] != evaluatedAt ==> len(prodElements) > 0
+//@   loop 1: invariant [prod]     prod != nil && 1 <= i
+//@
+//@ func localAggregateSignatures
+//@   props C10 C18
+//@   requires curveOK() && len(evaluationPoints) >= 2 && len(signatures) == len(evaluationPoints)
+//@   requires [sigs]     forall m int :: 0 <= m && m < len(signatures) ==> signatures[m] != nil
+//@   requires [distinct] forall a int, b int :: 0 <= a && a < b && b < len(evaluationPoints) ==> evaluationPoints[a] != evaluationPoints[b]
+//@   modifies heap:L!alg!G1
+//@   ensures  [non-nil] result != nil
+//@   loop 0: invariant [index] signatureIndex == rangeindex + 1 && sum != nil
